@@ -210,6 +210,9 @@ func NewGCPMultiEndpoint(meOpts *GCPMultiEndpointOptions, opts ...grpc.DialOptio
 		}
 	}
 	if err := gme.UpdateMultiEndpoints(meOpts); err != nil {
+		// Do not leave pools (and their monitoring goroutines) of a
+		// half-constructed GCPMultiEndpoint behind.
+		gme.Close()
 		return nil, err
 	}
 	return gme, nil
@@ -298,6 +301,13 @@ func (gme *GCPMultiEndpoint) UpdateMultiEndpoints(meOpts *GCPMultiEndpointOption
 	defer gme.mu.Unlock()
 	if _, ok := meOpts.MultiEndpoints[meOpts.Default]; !ok {
 		return fmt.Errorf("default MultiEndpoint %q missing options", meOpts.Default)
+	}
+	// Validate everything before changing anything: a rejected update must
+	// leave the current configuration untouched.
+	for name, meo := range meOpts.MultiEndpoints {
+		if meo == nil || len(meo.Endpoints) == 0 {
+			return fmt.Errorf("MultiEndpoint %q has an empty endpoints list", name)
+		}
 	}
 
 	validPools := make(map[string]bool)
